@@ -40,7 +40,7 @@ CLAIMED = {
         technique="Coq refinement proof (loop invariant) to a literal spec + translator-regenerated constants + differential correspondence",
     ),
     "C04": dict(
-        text="Coq theorems: the best-position search behind one-character needles and substring matching returns the leftmost candidate with the maximal bonus and its early exit is sound for every configuration (C04_best_pos, C04_max_bonus: the clause that failed under the path configuration before fix 13b35fc); the linear prefix bonus lies in [0,8]. C04_upper: the optimal matcher's score never exceeds the maximum of the scheme over ALL alignments (enumeration proved complete); C04_single: for a one-character needle it equals that maximum (any configuration); C04_slab_guard: the translated guard of MatrixSlab::alloc is the documented limit. Partial: 'never below the naive two-matrix recurrence' and the DP's prefix-preference bounds are validated by oracles on the implementation (naive recurrence Spec/Matching.naive_score on every case inside the documented limits, brute force for haystacks <= 9, every input run with prefer_prefix off and on), not proved.",
+        text="Coq theorems: the best-position search behind one-character needles and substring matching returns the leftmost candidate with the maximal bonus and its early exit is sound for every configuration (C04_best_pos, C04_max_bonus: the clause that failed under the path configuration before fix 13b35fc); the linear prefix bonus lies in [0,8]. C04_upper: the optimal matcher's score never exceeds the maximum of the scheme over ALL alignments (enumeration proved complete); C04_single: for a one-character needle it equals that maximum (any configuration); C04_slab_guard: the translated guard of MatrixSlab::alloc is the documented limit. C04_recurrence: on the matrix path the score is never below the documented two-matrix recurrence evaluated naively over the whole haystack (exact cell-by-cell correspondence of the windowed DP with Spec/Matching.naive_score); the prefix-preference bounds (never lower, at most +8) are proved for all five linear algorithms, every fuzzy call outside the matrix path and two-character needles on it (C04_prefix_outside_K2) and REFUTED on the matrix path for needles of three or more characters (C04_prefix_refuted = known finding K2, reproduced on the real code). Oracles on the implementation (naive recurrence, brute force for haystacks <= 9, every input with prefer_prefix off and on) tie the theorems to the code and search for failing inputs.",
         design_ref="DESIGN.md section 6, C04",
         note="Trusted: Coq kernel, translator, extraction, harness; brute force limited to haystacks of at most 9 characters. Axioms: none.",
         technique="Coq proof (argmax with early exit) + brute-force oracle on the implementation",
